@@ -176,6 +176,7 @@ fn worker(id: &str, tier: &str, seed: u64, out: &str) -> i32 {
         });
     util::install_panic_hook();
     let workdir = PathBuf::from(out).parent().unwrap().to_path_buf();
+    util::set_workdir(&workdir);
     let next = Arc::new(AtomicU64::new(0));
     let timed_out = Arc::new(AtomicBool::new(false));
     let total = Arc::new(Mutex::new(ev::Ev::new()));
